@@ -17,6 +17,13 @@ import Upnp.Lemmas.C08Valid
 namespace Upnp.C08
 open Upnp Upnp.Gen.C08Types
 
+/-- decimal reader without the digit cap (only used to exhibit a model of the float assumption) -/
+def parseNat' (s : Str) : Option Nat := parseDigits s 0 false
+
+theorem parseNat'_decNat (n : Nat) : parseNat' (decNat n) = some n := by
+  unfold parseNat' decNat
+  rw [parseDigits_map_dc _ (natDigits_lt n) 0 false (Or.inl (natDigits_ne_nil n)), natDigits_val]
+
 /-! ### the generated table is the specified one -/
 
 /-- the source's type table has exactly the 26 specified names, each with the specified Python
@@ -46,6 +53,41 @@ theorem roundtrip_all_types (hf : fo.RoundTrips) (row : TypeRow) (hrow : row ∈
     (hv : rtDomain row.ty v = true) :
     coerceUpnp fo row v = .ok (wire fo v) ∧ coercePython fo table row (wire fo v) = .ok (expectBack row.ty v) :=
   roundtrip_row fo table table_good row (rows_good row hrow) hf v hv
+
+/-- **Round trip with the float assumption only where a float occurs.** The same statement under
+    the POINTWISE hypothesis "`float(repr(f)) == f` for the float at hand": nothing is assumed for
+    values that are not floats, and nothing about floats other than `v` (NaN payloads, …). -/
+theorem roundtrip_all_types_pt (row : TypeRow) (hrow : row ∈ rows) (v : Val F)
+    (hf : ∀ f, v = .float f → fo.parse (fo.repr f) = some f) (hv : rtDomain row.ty v = true) :
+    coerceUpnp fo row v = .ok (wire fo v) ∧ coercePython fo table row (wire fo v) = .ok (expectBack row.ty v) :=
+  roundtrip_row_pt fo table table_good row (rows_good row hrow) v hf hv
+
+/-- **The 21 non-float types need no assumption at all**: for a row whose class is not `float`
+    (integers, strings, booleans, dates, times, date-times) the round trip is proved outright. -/
+theorem roundtrip_nonfloat (row : TypeRow) (hrow : row ∈ rows) (hty : row.ty ≠ .float) (v : Val F)
+    (hv : rtDomain row.ty v = true) :
+    coerceUpnp fo row v = .ok (wire fo v) ∧ coercePython fo table row (wire fo v) = .ok (expectBack row.ty v) := by
+  apply roundtrip_all_types_pt fo row hrow v _ hv
+  intro f hvf
+  subst hvf
+  exfalso
+  simp only [rtDomain, boolAsInt, Val.exactType, Bool.and_eq_true, Bool.or_eq_true, beq_iff_eq] at hv
+  rcases hv.1 with h | h
+  · exact hty h
+  · simp at h
+
+/-- accepted spellings without any float assumption, for the non-float rows -/
+theorem spelling_nonfloat (row : TypeRow) (hrow : row ∈ rows) (hty : row.ty ≠ .float) (sp : Spelling) (v : Val F)
+    (s : Str) (hv : spellDomain row.ty sp v = true) (hs : spell fo sp v = some s) :
+    coercePython fo table row s = .ok (expectBack row.ty v) := by
+  apply spelling_row_pt fo table table_good row (rows_good row hrow) sp v _ s hv hs
+  intro f hvf
+  subst hvf
+  exfalso
+  simp only [spellDomain, rtDomain, boolAsInt, Val.exactType, Bool.and_eq_true, Bool.or_eq_true, beq_iff_eq] at hv
+  rcases hv.1.1 with h | h
+  · exact hty h
+  · simp at h
 
 /-- the integer (and every other) case is not weakened: for a value of exactly the row's class the
     value read back is the value itself -/
@@ -174,6 +216,21 @@ theorem schema_accepts_iff (row : TypeRow) (d : Decl) (dv : DeclVals F)
     (hd : Denotes (coercePython fo table row) d dv) (hdef : d.default = none) :
     ∃ sc, mkSchema fo table row true d = .ok sc ∧ ∀ v, sc.check fo v = accept fo row.ty row.requireTz dv v :=
   ⟨_, mkSchema_denotes fo table row d dv hd hdef, fun v => check_eq_accept fo row.ty row.requireTz dv v⟩
+
+/-- **… also for declarations WITH a default value** (no `default = none` hypothesis): the default only
+    has to be convertible — there is none / an empty one, or the row is boolean, or the source converts
+    it with the row's own `"in"` entry (pinned: `table.defaultViaIn`) and its text denotes a value. -/
+theorem schema_accepts_iff_default (row : TypeRow) (d : Decl) (dv : DeclVals F)
+    (hd : Denotes (coercePython fo table row) d dv)
+    (hdef : nonEmpty d.default = none ∨ row.ty = .bool
+      ∨ ∀ s, nonEmpty d.default = some s → ∃ v, coercePython fo table row s = .ok v) :
+    ∃ sc, mkSchema fo table row true d = .ok sc ∧ ∀ v, sc.check fo v = accept fo row.ty row.requireTz dv v := by
+  refine ⟨_, mkSchema_denotes_default fo table row d dv hd (schemaDefault_ok fo table row d.default ?_),
+    fun v => check_eq_accept fo row.ty row.requireTz dv v⟩
+  rcases hdef with h | h | h
+  · exact Or.inl h
+  · exact Or.inr (Or.inl h)
+  · exact Or.inr (Or.inr ⟨by decide, h⟩)
 
 /-- declarations written in wire form: minimum, maximum and allowed values given as the wire forms
     of in-domain values of the row's class denote those values — for every row of the table -/
@@ -366,6 +423,22 @@ example :
         | .ok v => v == lo
         | .error _ => false) = true := by
   refine ⟨_, List.mem_of_getElem? (i := 23) rfl, by decide, by decide, by decide, by decide, by decide, by decide, by decide⟩
+
+/-- the float assumption is satisfiable: a carrier whose `repr` is injective and `parse` its inverse
+    (floats numbered by `Nat`, written in decimal) -/
+example : ∃ fo : FloatOps Nat, fo.RoundTrips :=
+  ⟨⟨decNat, parseNat', fun a b => decide (a ≤ b), fun a b => a == b⟩, fun x => parseNat'_decNat x⟩
+
+/-- the F08a case as an instance of the theorem: a `time.tz` value with a negative offset is written
+    `06:03:55-23:59` and read back, with no float assumption -/
+example (fo : FloatOps F) :
+    let v : Val F := .time ⟨6, 3, 55⟩ (some (-1439))
+    ∃ row ∈ rows, row.name = ['t','i','m','e','.','t','z'] ∧ coerceUpnp fo row v = .ok ['0','6',':','0','3',':','5','5','-','2','3',':','5','9']
+      ∧ coercePython fo table row ['0','6',':','0','3',':','5','5','-','2','3',':','5','9'] = .ok v := by
+  refine ⟨_, List.mem_of_getElem? (i := 25) rfl, by decide, ?_⟩
+  have h := roundtrip_nonfloat fo _ (List.mem_of_getElem? (i := 25) rfl) (by decide)
+    (.time ⟨6, 3, 55⟩ (some (-1439))) rfl
+  exact h
 
 end
 end Upnp.C08
